@@ -254,7 +254,7 @@ func vfC02Case(rt *rapid.T, c *ev.Collector) {
 		if err := sv.ParseClient(hs, vfHourNow()); err != nil {
 			rt.Skip("hour changed or client handshake not parseable: " + err.Error())
 		}
-		variant := rapid.SampledFrom([]string{"auth-from-own-key", "random-auth", "auth-of-another-handshake", "genuine-auth-other-Y", "low-order-Y", "auth-without-identity-key"}).Draw(rt, "impostorVariant")
+		variant := rapid.SampledFrom([]string{"auth-from-own-key", "random-auth", "auth-of-another-handshake", "genuine-auth-other-Y", "low-order-Y", "low-order-Y-zero-auth", "low-order-Y-auth-for-zero-secrets", "auth-without-identity-key"}).Draw(rt, "impostorVariant")
 		switch variant {
 		case "random-auth":
 			sv.Auth = ent(32)
@@ -280,10 +280,26 @@ func vfC02Case(rt *rapid.T, c *ev.Collector) {
 			e := refntor.X25519(sv.Key.Priv, x, false)
 			f := refntor.Forge(e, e, br.ID.NodeID, br.ID.Pub, x, sv.Key.Pub)
 			sv.Auth, sv.KeySeed = f.Auth, f.KeySeed
-		case "low-order-Y":
+		case "low-order-Y", "low-order-Y-zero-auth", "low-order-Y-auth-for-zero-secrets":
+			// Y' decodes to a low-order point, so EXP(Y,x) is all-zero whatever x is
 			reprs := vfLowOrderReprs()
-			sv.Key = refobfs4.EKey{Repr: reprs[rapid.IntRange(0, len(reprs)-1).Draw(rt, "lowRepr")]}
-			sv.Auth = ent(32)
+			r := append([]byte(nil), reprs[rapid.IntRange(0, len(reprs)-1).Draw(rt, "lowRepr")]...)
+			r[31] |= byte(rapid.IntRange(0, 3).Draw(rt, "lowTop")) << 6
+			sv.Key = refobfs4.EKey{Repr: r, Pub: refobfs4.ReprToPublic(r)}
+			zero := make([]byte, 32)
+			switch variant {
+			case "low-order-Y":
+				sv.Auth = ent(32)
+			case "low-order-Y-zero-auth":
+				// what a client that blanks its outputs on failure would compare with
+				sv.Auth = zero
+				sv.KeySeed = zero
+			default:
+				// the transcript hashes for all-zero Diffie-Hellman results are public knowledge
+				x := refobfs4.ReprToPublic(sv.ClientRepr)
+				f := refntor.Forge(zero, zero, br.ID.NodeID, br.ID.Pub, x, sv.Key.Pub)
+				sv.Auth, sv.KeySeed = f.Auth, f.KeySeed
+			}
 		}
 		desc = "impostor: " + variant
 		_, s2c := refobfs4.Keys(sv.KeySeed)
